@@ -38,7 +38,7 @@ def find_item(src, kind, name):
         mm = re.search(r'^[ \t]*(pub(\([^)]*\))?\s+)?const\s+' + re.escape(name) + r'\b[^;]*;', m, re.M)
         if not mm:
             raise AnchorLost(f'const {name} not found')
-        return mm.start(), mm.end()
+        return mm.start(), mm.end(), []
     mm = list(re.finditer(r'^[ \t]*(pub(\([^)]*\))?\s+)?' + kind + r'\s+' + re.escape(name) + r'\b', m, re.M))
     if len(mm) != 1:
         raise AnchorLost(f'{kind} {name}: {len(mm)} candidates')
@@ -200,6 +200,11 @@ def weave_fn(text, spec, unit_name):
         w.insert(0, '#[verifier::external_body]\n', 'assumed contract (external_body)')
     if clauses:
         w.insert(body_open, '\n' + ''.join(clauses), 'contract')
+    if spec.get('external_body'):
+        # the body is not verified and need not even type-check inside the unit: drop it (logged)
+        w.replace(body_open, body_close + 1, '{ unimplemented!() }', 'external_body: body dropped, contract ASSUMED')
+        out, faithful = w.render()
+        return out, faithful, w.log
     # loops by ordinal
     loops = []
     for mm in re.finditer(r'\b(while|loop|for)\b', m[body_open:body_close]):
@@ -267,6 +272,16 @@ def weave_fn(text, spec, unit_name):
             w.insert(offs[i], ''.join(indent + x + '\n' for x in g['text'].strip('\n').split('\n')), 'proof block')
     # R4 outlining
     for ol in spec.get('outline', []):
+        if ol.get('through_matching_brace'):
+            # R4 on a block statement: from the given start text through the brace that closes the first `{` after it
+            cnt = text.count(ol['expr'])
+            if cnt != 1:
+                raise AnchorLost(f'{spec["name"]}: R4 block target occurs {cnt}x: {ol["expr"]!r}')
+            s0 = text.index(ol['expr'])
+            ob = m.index('{', s0 + len(ol['expr']) - 1) if '{' not in ol['expr'] else s0 + ol['expr'].rindex('{')
+            cb = rustlex.match_brace(m, ob)
+            w.replace(s0, cb + 1, ol['call'], 'R4 outlining of a block into helper with assumed contract')
+            continue
         cnt = text.count(ol['expr'])
         if cnt != 1:
             raise AnchorLost(f'{spec["name"]}: R4 target occurs {cnt}x: {ol["expr"]!r}')
@@ -295,6 +310,9 @@ def build_unit(unit_path, out_path):
         src = rd(os.path.join(REPO, it['file'])).replace('\r\n', '\n')
         s, e, attrs = find_item(src, it['kind'], it['name'])
         text = strip_docs(src[s:e])
+        if R1_BOUND.search(text):
+            info['rewrites'].append({'fn': it['name'], 'op': 'replace', 'why': 'R1 trait-parameter collapse', 'before': R1_BOUND.search(text).group(0), 'after': 'EbmlSpecification'})
+            text = R1_BOUND.sub('EbmlSpecification', text)
         keep_attrs = [] if it.get('drop_attrs') else [a.strip() for a in attrs if a.strip().startswith('#[derive')]
         if it.get('project_fields'):
             text, dropped = project_struct(text, it)
